@@ -3,31 +3,33 @@ From TT Require Import Model.H3Stream.
 Import ListNotations.
 
 Lemma h3run_from evs : forall s,
-  wr_open s = true -> ~ In ClientReset evs ->
-  let s' := fold_left (h3step true) evs s in
-  wr_open s' = true /\ delivered s' = delivered s ++ responses evs /\ lost s' = lost s.
+  wr_open s = true -> known s = true -> ~ In ClientReset evs ->
+  let s' := fold_left (h3step true true) evs s in
+  wr_open s' = true /\ known s' = true /\ delivered s' = delivered s ++ responses evs /\ lost s' = lost s.
 Proof.
-  induction evs as [|e r IH]; intros s W NR; cbn [fold_left responses].
+  induction evs as [|e r IH]; intros s W K NR; cbn [fold_left responses].
   - rewrite app_nil_r. auto.
   - assert (NR' : ~ In ClientReset r) by (intros H; apply NR; right; exact H).
     destruct e as [| |c].
-    + apply (IH (h3step true s ClientFin)); [exact W|exact NR'].
-    + exfalso. apply NR. left. reflexivity.
-    + assert (E : h3step true s (Respond c) =
-                  {| rd_open := rd_open s; wr_open := true; delivered := delivered s ++ [c]; lost := lost s |}).
-      { unfold h3step. rewrite W. reflexivity. }
+    + assert (E : h3step true true s ClientFin =
+                  {| rd_open := false; wr_open := true; known := true; delivered := delivered s; lost := lost s |}).
+      { unfold h3step, still_known. rewrite W, K. reflexivity. }
       rewrite E.
-      destruct (IH {| rd_open := rd_open s; wr_open := true; delivered := delivered s ++ [c]; lost := lost s |} eq_refl NR')
-        as (A & B & C).
-      cbn [delivered lost] in B, C. repeat split; [exact A| |exact C].
-      rewrite B, <- app_assoc. reflexivity.
+      apply (IH {| rd_open := false; wr_open := true; known := true; delivered := delivered s; lost := lost s |} eq_refl eq_refl NR').
+    + exfalso. apply NR. left. reflexivity.
+    + assert (E : h3step true true s (Respond c) =
+                  {| rd_open := rd_open s; wr_open := true; known := true; delivered := delivered s ++ [c]; lost := lost s |}).
+      { unfold h3step. rewrite W, K. reflexivity. }
+      rewrite E.
+      destruct (IH {| rd_open := rd_open s; wr_open := true; known := true; delivered := delivered s ++ [c]; lost := lost s |}
+                   eq_refl eq_refl NR') as (A & B & C & D).
+      cbn [delivered lost] in C, D. repeat split; [exact A|exact B| |exact D].
+      rewrite C, <- app_assoc. reflexivity.
 Qed.
 
-(* whatever the order of the client's FIN and the pieces of the response, every piece reaches the client *)
 Lemma every_response_piece_is_delivered_proof evs :
   ~ In ClientReset evs ->
-  delivered (h3run true evs) = responses evs /\ lost (h3run true evs) = [].
+  delivered (h3run true true evs) = responses evs /\ lost (h3run true true evs) = [].
 Proof.
-  intros NR. destruct (h3run_from evs h3_0 eq_refl NR) as (_ & B & C). split; assumption.
+  intros NR. destruct (h3run_from evs h3_0 eq_refl eq_refl NR) as (_ & _ & C & D). split; assumption.
 Qed.
-
